@@ -33,7 +33,7 @@ func init() {
 	register("c20-corr", func(a cmdArgs) { cmdC20Corr(a.seed, a.n, a.dir) })
 	register("c20-probe", func(a cmdArgs) { cmdC20Probe(a.file) })
 	register("c20-gen", func(a cmdArgs) { // print generated program number n of the seed, with its expectation
-		r := newRng(a.seed)
+		r := newRng(c20Seed(a.seed))
 		var p *c20Prog
 		for c := 0; c <= a.n; c++ {
 			p = genC20(r, 1+c%30, c%4 == 3, a.thorough)
@@ -41,6 +41,11 @@ func init() {
 		fmt.Printf("%s// fault=%s wrap=%s entry=%s multi=%v\n// expected: %s\n// again: %s\n", p.Src, p.Fault, p.Wrap, p.Entry, p.Multi, c20Expect(p.Frames), c20Expect(p.Again))
 	})
 }
+
+// c20Seed spreads the seeds: the shared splitmix64 wrapper starts seed k at state k*G+c and advances by G per
+// draw, so the stream of seed k+1 is the stream of seed k shifted by ONE draw (two runs can fall into step and
+// generate the same programs); multiplying the seed moves consecutive seeds ~10^12 draws apart.
+func c20Seed(seed uint64) uint64 { return seed*0x100000001b3 + 0xc20 }
 
 // ---------------------------------------------------------------------------
 // generator
@@ -515,6 +520,9 @@ func (q *c20Gen) emitTop(i int) {
 	}
 }
 
+// c20ForceFault: when set, genC20 plants this fault and writes the failing operation over two lines.
+var c20ForceFault string
+
 // genC20 builds one program.  multi: write some calls of the chain over several lines.
 func genC20(r *rng, depth int, multi bool, model bool) *c20Prog {
 	q := &c20Gen{r: r, depth: depth, model: model}
@@ -526,6 +534,10 @@ func genC20(r *rng, depth int, multi bool, model bool) *c20Prog {
 	q.wrap = pick(r, c20Wraps)
 	q.useStr = q.fault == "native"
 	q.mFault = multi && r.chance(25)
+	if c20ForceFault != "" {
+		q.fault, q.mFault = c20ForceFault, true
+		q.useStr = false
+	}
 	q.lv = make([]*c20Level, depth+2)
 	budget := 36 // bound on the number of active calls
 	for i := 1; i <= depth; i++ {
@@ -1111,7 +1123,7 @@ func c20Check(st *stats, p *c20Prog) {
 }
 
 func cmdC20Script(seed uint64, n int, dir string) {
-	r := newRng(seed)
+	r := newRng(c20Seed(seed))
 	st := newStats()
 	cov := map[string]map[string]int{"fault": {}, "wrap": {}, "entry": {}, "callee kind": {}, "call context": {}, "active calls": {}}
 	var progs []*c20Prog
@@ -1138,6 +1150,16 @@ func cmdC20Script(seed uint64, n int, dir string) {
 			cov["call context"][k]++
 		}
 		cov["active calls"][fmt.Sprintf("%02d-%02d", (len(p.Frames)-1)/5*5, (len(p.Frames)-1)/5*5+4)]++
+		c20Check(st, p)
+	}
+	// every multi-line form of the failing operation at least once per run, whatever the seed
+	for _, f := range []string{"nilmap", "nilmapint", "nilfieldset", "nilfield", "nilinner", "nilfieldfunc", "nilrecvcall", "strindex", "nilslice"} {
+		c20ForceFault = f
+		p := genC20(r, 1+r.intn(6), true, false)
+		c20ForceFault = ""
+		progs = append(progs, p)
+		st.add("multi-line failing operation fault="+f, fmt.Sprintf("forced multi-line %s: %d active calls, entry %s", f, len(p.Frames)-1, p.Entry))
+		cov["fault"][f]++
 		c20Check(st, p)
 	}
 	for c := 0; c < 3+n/40; c++ {
@@ -1267,7 +1289,7 @@ func c20Case(p *c20Prog, optimize bool) (string, bool) {
 }
 
 func cmdC20Corr(seed uint64, n int, dir string) {
-	r := newRng(seed)
+	r := newRng(c20Seed(seed))
 	st := newStats()
 	var cases []string
 	for c := 0; c < n; c++ {
